@@ -254,7 +254,7 @@ fn handle_item(
             let args = args.evaluate(scope.clone())?;
             if let Some(body) = body {
                 let mut atrule = dest.start_atrule(name.clone(), args);
-                let local = if name == "keyframes" {
+                let local = if is_keyframes(&name) {
                     ScopeRef::sub_selectors(scope, SelectorCtx::root())
                 } else {
                     ScopeRef::sub(scope)
@@ -518,4 +518,10 @@ fn name_in(name: &str, known: &[&str]) -> bool {
     } else {
         known.contains(&name)
     }
+}
+
+/// True for `keyframes` and vendor prefixed variants like `-webkit-keyframes`.
+pub(crate) fn is_keyframes(name: &str) -> bool {
+    name == "keyframes"
+        || (name.starts_with('-') && name.ends_with("-keyframes"))
 }
